@@ -136,6 +136,10 @@ func (s *Segment) loadFields() error {
 
 // loadStoredFieldChunk load storedField chunk offsets
 func (s *Segment) loadStoredFieldChunk() error {
+	if s.footer.numDocs == 0 && s.footer.storedIndexOffset == 0 {
+		// a merge in which no document survived writes no stored section
+		return nil
+	}
 	// read chunk num
 	chunkOffsetPos := int(s.footer.storedIndexOffset - uint64(sizeOfUint32))
 	chunkData, err := s.data.Read(chunkOffsetPos, chunkOffsetPos+sizeOfUint32)
